@@ -3,6 +3,8 @@ import FeatModel.Lemmas.C12Parti
 import FeatModel.Lemmas.C12RefineCover
 import FeatModel.Lemmas.C12Protocol
 import FeatModel.Lemmas.C12Split
+import FeatModel.Lemmas.C12Neighbour
+import FeatModel.Lemmas.C12Iter
 /-!
 # C12 — partitions cover each cell once; neighbouring patches agree on their interface
 
@@ -12,9 +14,12 @@ All theorems are about the functions of `FeatModel.Model.Partition`, `PartitionR
 the decidable predicates `Mesh.consistent`, `isPartition`, `Graph.wf` (evaluated on every generated input by the
 `hypotheses` stream).  The refinement model is C10's (`FeatModel.Refine`, imported read-only).
 
-Only `_partial`: of the clause "these relations survive any number of joint refinements" the halo agreement, the
-injectivity and cover-once are proved for every number of refinements; `C12.refinement_partial` says what remains
-observed only.  `PartiIterative` (time-seeded) is not modelled (oracle-only stream `partitioners`).
+Refinement clause: cover-once (dim ≤ 3), injectivity, halo agreement (same order) and halo completeness (same shared
+set) in every dimension, neighbour completeness/symmetry (dim ≤ 3) are proved for EVERY number of joint refinements,
+for both shape families (simplex / hypercube), for the topology-free (simple) target refiner that patch parts and halos
+use; only `_partial`: `C12.refinement_partial` names the one remaining observed fact (the refined patch MESH is the
+patch of the refined base mesh - C10's index refiner).  `PartiIterative`: the deterministic core (distance function,
+constructor for given centres) is modelled and compared; the mutation loop and the time seed are not.
 -/
 open FeatModel.Adj FeatModel.Parti
 
@@ -195,6 +200,37 @@ theorem C12.halo_protocol_spec (m : Mesh) (p : Parti) (r s : Nat) (hs : s ∈ co
     subst this
     rfl
 
+/-- **independence from the other neighbours**: the halo of `r` towards `s` is determined by the cells of `r`, the cells
+of `s` and the cell count alone - two partitionings that agree on these two rows give the same halo, whatever other
+ranks exist, however many of them are neighbours of `r`, and in whatever order they are discovered -/
+theorem C12.halo_depends_on_pair_only (m : Mesh) (p p' : Parti) (r s d : Nat) (hn : p.nImg = p'.nImg)
+    (hr : p.row r = p'.row r) (hs : p.row s = p'.row s) :
+    halo m p r s d = halo m p' r s d := by
+  have hh : ∀ b, hasRank m p d b s = hasRank m p' d b s := by
+    intro b
+    rw [Bool.eq_iff_iff]
+    by_cases hd : d = m.dim
+    · subst hd
+      rw [hasRank_dim, hasRank_dim, hn, hs]
+    · simp only [hasRank, if_neg hd, List.any_eq_true, List.contains_iff_mem, mem_ranksAtElem, hn, hs]
+  unfold halo
+  rw [hr]
+  congr 1
+  funext bi
+  obtain ⟨b, i⟩ := bi
+  simp only [hh b]
+
+/-- the same for the stateful protocol run: the entry stored for neighbour `s` is the pair-only halo -/
+theorem C12.halo_protocol_pair_only (m : Mesh) (p p' : Parti) (r s : Nat) (hs : s ∈ commRanks m p r)
+    (hn : p.nImg = p'.nImg) (hr : p.row r = p'.row r) (hs' : p.row s = p'.row s) :
+    (haloProtocol m p r).find? (fun e => e.1 == s) =
+      some (s, (List.range (m.dim + 1)).map (halo m p' r s)) := by
+  rw [C12.halo_protocol_spec m p r s hs]
+  congr 2
+  apply List.map_congr_left
+  intro d _
+  exact C12.halo_depends_on_pair_only m p p' r s d hn hr hs'
+
 /-- vertex-only / edge-only contacts: a dimension in which the two patches share no base entity gets an EMPTY list -/
 theorem C12.halo_empty_dim (m : Mesh) (p : Parti) (hm : m.consistent = true) (hp : p.wf = true) (r s d : Nat)
     (hd : d < m.dim)
@@ -369,6 +405,57 @@ theorem C12.parti2lvl_partition (factor lvlinc numElems numRanks : Nat) (res : P
   rw [p2lGraph_row_length numRanks lvl E hdvd r hr]
   exact hpos
 
+/-! ## the other partitioner paths: explicit graph, PartiIterative core -/
+
+/-- explicit (user-given / Partition-from-file) elements-at-rank graph: `extract_patch` either aborts - exactly when
+the cell count does not match or some rank received no cell - or every one of the `nDom` ranks gets a non-empty patch -/
+theorem C12.explicit_graph_reported (m : Mesh) (p : Parti) :
+    extractOk m p = true ↔ p.nImg = m.numCells ∧ ∀ r, r < p.nDom → p.row r ≠ [] := by
+  simp only [extractOk, Bool.and_eq_true, beq_iff_eq, List.all_eq_true, Bool.not_eq_true', List.isEmpty_eq_false_iff]
+  constructor
+  · rintro ⟨h1, h2⟩
+    refine ⟨h1, fun r hr => h2 _ ?_⟩
+    simp [Graph.row, Graph.nDom] at hr ⊢
+    simp [List.getD, hr]
+  · rintro ⟨h1, h2⟩
+    refine ⟨h1, fun l hl => ?_⟩
+    obtain ⟨r, hr, rfl⟩ := List.getElem_of_mem hl
+    have := h2 r (by simpa [Graph.nDom] using hr)
+    simpa [Graph.row, List.getD, hr] using this
+
+/-- the constructor of `PartiIterativeIndividual` for given centres: it reads an uninitialised patch index exactly
+when some cell is assigned by no centre; otherwise it returns exactly one row per requested patch -/
+theorem C12.iterative_outcome (nb : List (List Int)) (n thr : Nat) (centres : List Nat) :
+    (iterIndividual nb n thr centres = none ↔
+        unassigned (assignItems nb n thr (Graph.sortList centres)) ≠ []) ∧
+    (∀ rows, iterIndividual nb n thr centres = some rows → rows.length = centres.length) := by
+  unfold iterIndividual
+  simp only
+  constructor
+  · cases h : (unassigned (assignItems nb n thr (Graph.sortList centres))) with
+    | nil => simp
+    | cons a as => simp
+  · intro rows h
+    by_cases hu : (unassigned (assignItems nb n thr (Graph.sortList centres))).isEmpty = true
+    · rw [if_pos hu, Option.some.injEq] at h
+      subst h
+      exact cellsPerPatch_length _ _
+    · rw [if_neg hu] at h
+      exact absurd h (by simp)
+
+/-- open finding F1 as a statement about the model: on a CONNECTED 9x1 strip with 3 requested patches (exploration
+threshold 4) and the centres 0,1,2, cell 8 is reached by no centre - the constructor uses an uninitialised index -/
+theorem C12.iterative_F1_uninitialised :
+    iterIndividual exIterStrip9 9 4 [0, 1, 2] = none ∧
+      unassigned (assignItems exIterStrip9 9 4 [0, 1, 2]) = [8] := by decide
+
+/-- open finding F2 as a statement about the model: on a disconnected mesh (cell 0 | chain 1-2-3) the wrap-around
+`Index(max) + 1 = 0` gives cell 2 the distance 0 from centre 0; with the centres 0,1,2 the third patch stays EMPTY
+and is returned without a failure indication -/
+theorem C12.iterative_F2_empty_patch :
+    iterDistance exIterDisconnected 4 5 0 = [0, idxMax, 0, 1] ∧
+      iterIndividual exIterDisconnected 4 5 [0, 1, 2] = some [[0, 2, 3], [1], []] := by decide
+
 /-! ## the relations survive any number of joint refinements
 
 `Side.steps k` = `k` calls of `refine_unique` on the base node (base mesh by `Refine.refine`, patch part by the simple
@@ -473,12 +560,80 @@ theorem C12.cover_once_refined (kind : FeatModel.Refine.Kind) (m : Mesh) (verts 
   rw [hkd.2] at this
   exact this
 
+/-- **the refined halo is complete**: after `k` joint refinements the halo of `r` towards `s` (in refined base
+indices) contains exactly the entities - of every dimension - that the refined patch parts of `r` and of `s` have in
+common: "the same set of shared base-mesh entities" survives refinement (all shapes, all dimensions) -/
+theorem C12.halo_complete_refined (kind : FeatModel.Refine.Kind) (m : Mesh) (verts : List (List Rat)) (p : Parti)
+    (hm : m.consistent = true) (hp : isPartition p = true) (hn : p.nImg = m.numCells) (r s k c x : Nat) :
+    x ∈ (Side.steps k (initialSide kind m verts p r s)).haloBase.target c ↔
+      x ∈ (partSteps k (asRefine kind m verts, patchPart m (p.row r))).2.target c ∧
+      x ∈ (partSteps k (asRefine kind m verts, patchPart m (p.row s))).2.target c := by
+  have hwf : p.wf = true := by
+    simp only [isPartition, Bool.and_eq_true] at hp
+    exact hp.1
+  rw [C12.halo_refined_spec]
+  refine isInter_steps k _ _ _ _ (patchPart_ok kind m verts p hp hn r) (patchPart_ok kind m verts p hp hn s) ?_ c x
+  intro d b
+  rw [target_mk, patchPart_target, patchPart_target]
+  by_cases hd : d ≤ m.dim
+  · simp only [if_pos hd]
+    rcases Nat.lt_or_eq_of_le hd with h | h
+    · rw [C12.halo_spec m p hm hwf r s d b h, C12.patch_entities m p hm r d b h, C12.patch_entities m p hm s d b h]
+    · subst h
+      rw [haloBase_eq_filter, List.mem_filter, hasRank_dim, target_dim, target_dim]
+      constructor
+      · rintro ⟨h1, _, h2⟩; exact ⟨h1, h2⟩
+      · rintro ⟨h1, h2⟩; exact ⟨h1, wf_row_lt p hwf s b h2, h2⟩
+  · simp [if_neg hd]
+
+/-- **neighbour completeness and symmetry survive refinement**: after `k` joint refinements the refined patches of
+`r` and `s` share a vertex of the refined base mesh if and only if `s` is one of the neighbour ranks of `r` computed
+by `extract_patch` (which `refine_unique` keeps: one refined halo per coarse neighbour).  Dimension ≤ 3, both shape
+families. -/
+theorem C12.neighbour_complete_refined (kind : FeatModel.Refine.Kind) (m : Mesh) (verts : List (List Rat))
+    (p : Parti) (hm : m.consistent = true) (hf : m.facetsOk = true) (hp : isPartition p = true)
+    (hn : p.nImg = m.numCells) (hd : m.dim ≤ 3) (r s k : Nat) (hrs : r ≠ s) :
+    (∃ x, x ∈ (partSteps k (asRefine kind m verts, patchPart m (p.row r))).2.target 0 ∧
+          x ∈ (partSteps k (asRefine kind m verts, patchPart m (p.row s))).2.target 0) ↔
+      s ∈ commRanks m p r := by
+  have hwf : p.wf = true := by
+    simp only [isPartition, Bool.and_eq_true] at hp
+    exact hp.1
+  have hc := cons_of_consistent m hm
+  rw [C12.neighbour_complete m p hm hwf r s]
+  constructor
+  · rintro ⟨x, hxr, hxs⟩
+    refine ⟨fun h => hrs h.symm, ?_⟩
+    have hI := isInter_steps k (asRefine kind m verts) _ _ _ (patchPart_ok kind m verts p hp hn r)
+      (patchPart_ok kind m verts p hp hn s) (interPart_isInter m (p.row r) (p.row s))
+    have hne : NonemptyUpTo (partSteps k (asRefine kind m verts,
+        interPart m.dim (patchPart m (p.row r)) (patchPart m (p.row s)))).2 (asRefine kind m verts).dim :=
+      ⟨0, x, Nat.zero_le _, (hI 0 x).2 ⟨hxr, hxs⟩⟩
+    obtain ⟨d, b, hdd, hb⟩ := (nonempty_steps k _ _ (show (asRefine kind m verts).dim ≤ 3 from hd)).1 hne
+    have hdd' : d ≤ m.dim := hdd
+    obtain ⟨hbr, hbs⟩ := (interPart_isInter m (p.row r) (p.row s) d b).1 hb
+    rw [patchPart_target, if_pos hdd'] at hbr hbs
+    rcases Nat.lt_or_eq_of_le hdd' with h | h
+    · obtain ⟨c1, hc1, hb1⟩ := (C12.patch_entities m p hm r d b h).1 hbr
+      obtain ⟨c2, hc2, hb2⟩ := (C12.patch_entities m p hm s d b h).1 hbs
+      obtain ⟨v, hv1, hv2⟩ := shared_vertex_of_shared m hc hf c1 c2 d h b hb1 hb2
+      exact ⟨v, c1, c2, hc1, hc2, hv1, hv2⟩
+    · subst h
+      exact absurd hbs (C12.patches_disjoint m p hp r s b hrs hbr)
+  · rintro ⟨_, v, c1, c2, hc1, hc2, hv1, hv2⟩
+    refine ⟨v, vertex_persists k _ _ v ?_, vertex_persists k _ _ v ?_⟩
+    · rw [patchPart_target, if_pos (Nat.zero_le _)]
+      exact (C12.patch_entities m p hm r 0 v hc.dim_pos).2 ⟨c1, hc1, hv1⟩
+    · rw [patchPart_target, if_pos (Nat.zero_le _)]
+      exact (C12.patch_entities m p hm s 0 v hc.dim_pos).2 ⟨c2, hc2, hv2⟩
+
 /-- What is still only observed (stream `refined`, model == implementation and oracle on depth 1-2): that the refined
-patch mesh is again the `PatchMeshFactory` image of the refined base mesh under the refined patch part (index sets and
-coordinates), hence that the entity list of `C12.halo_refined_spec` is the *complete* set of entities the refined
-patches of `r` and `s` share, and that 'sharing a vertex' is unchanged by refinement.  Proved (this theorem collects
-it): for every `k` the two refined halos are the same list of refined base entities, the refined patch parts are
-injective, and the refined patch cells cover the refined base mesh exactly once. -/
+patch MESH (`Refine.refine` of the `PatchMeshFactory` mesh: its index sets and coordinates) is again the
+`PatchMeshFactory` image of the refined base mesh under the refined patch part - a statement about C10's index refiner
+(orientation codes are preserved by the patch renumbering), not about the partitioning.  Everything the property says
+about patch parts, halos and neighbours is proved for every number `k` of joint refinements: `halo_agree_refined`
+(same order), `halo_complete_refined` (same shared set), `patch_injective_refined`, `cover_once_refined` (dim ≤ 3),
+`neighbour_complete_refined` (dim ≤ 3); this theorem collects the first, third and fourth. -/
 theorem C12.refinement_partial (kind : FeatModel.Refine.Kind) (m : Mesh) (verts : List (List Rat)) (p : Parti)
     (hm : m.consistent = true) (hp : isPartition p = true) (hn : p.nImg = m.numCells) (hd : m.dim ≤ 3)
     (r s k : Nat) (hrs : r ≠ s) :
